@@ -34,22 +34,32 @@ class Module:
         normalise_if_polarity(self.tree)
         from . import localnames, normalise
         normalise.aug_assign(self.tree)
+        normalise.flatten_else(self.tree)
         normalise.merge_nested_ifs(self.tree)
         self.funcs = {}  # qualname -> FunctionDef
         self.classes = {}  # qualname -> ClassDef
         self._index(self.tree, "", None)
         known = normalise.reference_functions().get(relpath)
         self.helpers_inlined = normalise.inline_new_helpers(self, known)
+        self.helpers_inlined += normalise.nested_def_to_lambda(self, known)
         if self.helpers_inlined:
+            normalise.flatten_else(self.tree)
             self.funcs, self.classes = {}, {}
             self._index(self.tree, "", None)
         self.locals_recovered = localnames.recover(self)
         ref_locals = localnames.reference().get(relpath)
         self.locals_propagated = 0
         if ref_locals is not None:
+            ref_tests = normalise.reference_tests().get(relpath) or {}
             for q, fn in self.funcs.items():
-                self.locals_propagated += normalise.propagate_new_locals(fn, set((ref_locals.get(q) or {}).values()))
+                names = set((ref_locals.get(q) or {}).values())
+                k = normalise.sink_return(fn, names)
+                k += normalise.propagate_new_locals(fn, names)
+                if q in ref_tests:
+                    k += normalise.split_or_guards(fn, set(ref_tests[q]))
+                self.locals_propagated += k
             if self.locals_propagated:
+                normalise.flatten_else(self.tree)
                 normalise.merge_nested_ifs(self.tree)
         for node in ast.walk(self.tree):
             for child in ast.iter_child_nodes(node):
